@@ -63,6 +63,9 @@ func (s *Solutions) Scan(dest interface{}) error {
 	}
 	switch o.Kind() {
 	case reflect.Struct:
+		if !o.CanAddr() {
+			return errors.New("struct is not addressable: pass a pointer to it")
+		}
 		t := o.Type()
 
 		fields := make(map[string]interface{}, t.NumField())
@@ -94,6 +97,9 @@ func (s *Solutions) Scan(dest interface{}) error {
 		t := o.Type()
 		if t.Key() != reflect.TypeOf("") {
 			return errors.New("map key is not string")
+		}
+		if o.IsNil() {
+			return errors.New("map is nil")
 		}
 
 		for _, v := range s.vars {
